@@ -7,6 +7,12 @@ import (
 )
 
 func (v *VMValue) ToJSONRaw(save map[*VMValue]bool) ([]byte, error) {
+	return v.toJSONRaw(save, map[any]bool{})
+}
+
+// toJSONRaw: seen 记录当前路径上的容器(以底层数据指针为键)。VMValue 在赋值时会被 Clone，
+// 同一个数组/字典可能对应多个 *VMValue，因此仅凭 save 无法发现 o.self = o 这样的循环
+func (v *VMValue) toJSONRaw(save map[*VMValue]bool, seen map[any]bool) ([]byte, error) {
 	if v == nil {
 		return nil, errors.New("nil pointer")
 	}
@@ -35,7 +41,12 @@ func (v *VMValue) ToJSONRaw(save map[*VMValue]bool) ([]byte, error) {
 		x.TypeId = v.TypeId
 		x.Value.Expr = cd.Expr
 		if cd.Attrs != nil {
-			attrJson, err := cd.Attrs.ToJSON()
+			if seen[cd] {
+				return nil, errors.New("值错误: 序列化时检测到循环引用")
+			}
+			seen[cd] = true
+			defer delete(seen, cd)
+			attrJson, err := cd.Attrs.toJSON(seen)
 			if err != nil {
 				return nil, err
 			}
@@ -52,9 +63,14 @@ func (v *VMValue) ToJSONRaw(save map[*VMValue]bool) ([]byte, error) {
 		}
 		save[v] = true
 		ad, _ := v.ReadArray()
+		if seen[ad] {
+			return nil, errors.New("值错误: 序列化时检测到循环引用")
+		}
+		seen[ad] = true
+		defer delete(seen, ad)
 		lst := [][]byte{}
 		for _, i := range ad.List {
-			json_data, err := i.ToJSONRaw(save)
+			json_data, err := i.toJSONRaw(save, seen)
 			if err != nil {
 				return nil, err
 			}
@@ -76,8 +92,13 @@ func (v *VMValue) ToJSONRaw(save map[*VMValue]bool) ([]byte, error) {
 		}
 		save[v] = true
 		cd := v.MustReadDictData()
+		if seen[cd] {
+			return nil, errors.New("值错误: 序列化时检测到循环引用")
+		}
+		seen[cd] = true
+		defer delete(seen, cd)
 
-		dictJson, err := cd.Dict.ToJSON()
+		dictJson, err := cd.Dict.toJSON(seen)
 		if err != nil {
 			return nil, err
 		}
